@@ -81,6 +81,25 @@ theorem C19_send_resume_then_lost_eofs {m Ta Ti : Nat} (s : Send.State) (t j a h
   obtain ⟨c1, c2, c3, c4, _⟩ := waits_repeated e ts _ t j a w wq wab wib hf
   exact ⟨c1, c2.trans w2, c3, c4⟩
 
+/-! ### the premises are satisfiable -/
+
+/-- the sender of `exS4` (EOF out, unacknowledged), suspended at clock reading 100 -/
+def exS4s : Send.State := sendStep exS4 100 .suspend
+
+example : ∃ e, (eofRounds (sendStep exS4s 7000000000 .resume) [8000000000, 9000000500]).2.length = 2 ∧
+    ∀ p ∈ (eofRounds (sendStep exS4s 7000000000 .resume) [8000000000, 9000000500]).2, ∃ hd, p = ⟨hd, .eof e⟩ := by
+  have he : ∃ e, exS4s.eof = some (e, false) := ⟨_, rfl⟩
+  obtain ⟨e, he⟩ := he
+  have hqt : QT 4 1000000000 3000000000 exS4s.timer := by
+    refine qt_sendStep (qt_run _ ⟨?_, ?_, rfl⟩ _) 100 .suspend
+    · exact cq_new _ _ _ (by decide)
+    · exact cq_new _ _ _ (by decide)
+  obtain ⟨_, _, c3, c4⟩ := C19_send_resume_then_lost_eofs (m := 4) (Ta := 1000000000) (Ti := 3000000000) exS4s 7000000000 0 0 0 e
+    [8000000000, 9000000500] (by decide) (by decide) (by decide) he (Or.inl ⟨by decide, by decide⟩) hqt (by decide) (by decide)
+    (by decide) ⟨by decide, by decide, by decide⟩ (by decide)
+    ⟨by decide, by decide, by decide, by decide, by decide, by decide, by decide, by decide, by decide, by decide, trivial⟩
+  exact ⟨e, c3, c4⟩
+
 end Cfdp.Loop
 
 #print axioms Cfdp.Loop.C19_send_resume_then_lost_eofs
